@@ -124,3 +124,10 @@ Definition whfast_recalc_word (corrector : nat) : scheme :=
   c ++ wh_kernel ++ ci ++ c ++ wh_kernel ++ ci ++ c ++ wh_kernel ++ ci.
 Definition whfast_recalc_ok : bool :=
   same_element (full 4) (whfast_recalc_word 0) (repeat_word 5 wh_kernel).
+
+(* the same for SABA (since /repo 014ae4c part1 synchronizes before recomputing the coordinates): two unsynchronized steps,
+   then three steps each preceded by the flag = each starting from a synchronised state *)
+Definition saba_recalc_word (type : Z) : scheme :=
+  saba_word_unsync type 2 ++ saba_word type ++ saba_word type ++ saba_word type.
+Definition saba_recalc_ok : bool :=
+  forallb (fun t => same_element (saba_grading t) (saba_recalc_word t) (repeat_word 5 (saba_word t))) saba_plain_types.
